@@ -278,36 +278,52 @@ func init() {
 			}
 			return nil
 		},
-		"time.Now":                intrTimeNow,
-		"(time.Time).UTC":         func(ex *Exec, fn *ssa.Function, args []Value) Value { return args[0] },
-		"(time.Time).Local":       func(ex *Exec, fn *ssa.Function, args []Value) Value { return args[0] },
-		"(time.Time).Unix":        func(ex *Exec, fn *ssa.Function, args []Value) Value { return IntV{timeExt(args[0])} },
-		"(time.Time).UnixNano":    func(ex *Exec, fn *ssa.Function, args []Value) Value { return IntV{timeExt(args[0])} },
-		"(time.Time).IsZero":      func(ex *Exec, fn *ssa.Function, args []Value) Value { return BoolV{ex.tf.Eq(timeExt(args[0]), ex.tf.Const(64, 0))} },
-		"(time.Time).Add":         func(ex *Exec, fn *ssa.Function, args []Value) Value { return ex.mkTime(ex.tf.Add(timeExt(args[0]), args[1].(IntV).T)) },
-		"(time.Time).Sub":         func(ex *Exec, fn *ssa.Function, args []Value) Value { return IntV{ex.tf.Sub(timeExt(args[0]), timeExt(args[1]))} },
-		"(time.Time).Before":      func(ex *Exec, fn *ssa.Function, args []Value) Value { return BoolV{ex.tf.Slt(timeExt(args[0]), timeExt(args[1]))} },
-		"(time.Time).After":       func(ex *Exec, fn *ssa.Function, args []Value) Value { return BoolV{ex.tf.Slt(timeExt(args[1]), timeExt(args[0]))} },
-		"(time.Time).Equal":       func(ex *Exec, fn *ssa.Function, args []Value) Value { return BoolV{ex.tf.Eq(timeExt(args[0]), timeExt(args[1]))} },
-		"(time.Time).Date":        intrTimeDate,
-		"(time.Time).Clock":       intrTimeClock,
-		"(time.Time).Zone":        intrTimeZone,
-		"(time.Time).Nanosecond":  func(ex *Exec, fn *ssa.Function, args []Value) Value { return IntV{ex.timeField("nanosecond", timeExt(args[0]), 0, 999999999)} },
-		"(time.Time).Year":        func(ex *Exec, fn *ssa.Function, args []Value) Value { return IntV{ex.timeField("year", timeExt(args[0]), 0, 9999)} },
-		"(time.Time).String":      func(ex *Exec, fn *ssa.Function, args []Value) Value { return concStr("<time>") },
-		"time.Unix":               func(ex *Exec, fn *ssa.Function, args []Value) Value { return ex.mkTime(args[0].(IntV).T) },
+		"time.Now":             intrTimeNow,
+		"(time.Time).UTC":      func(ex *Exec, fn *ssa.Function, args []Value) Value { return args[0] },
+		"(time.Time).Local":    func(ex *Exec, fn *ssa.Function, args []Value) Value { return args[0] },
+		"(time.Time).Unix":     func(ex *Exec, fn *ssa.Function, args []Value) Value { return IntV{timeExt(args[0])} },
+		"(time.Time).UnixNano": func(ex *Exec, fn *ssa.Function, args []Value) Value { return IntV{timeExt(args[0])} },
+		"(time.Time).IsZero": func(ex *Exec, fn *ssa.Function, args []Value) Value {
+			return BoolV{ex.tf.Eq(timeExt(args[0]), ex.tf.Const(64, 0))}
+		},
+		"(time.Time).Add": func(ex *Exec, fn *ssa.Function, args []Value) Value {
+			return ex.mkTime(ex.tf.Add(timeExt(args[0]), args[1].(IntV).T))
+		},
+		"(time.Time).Sub": func(ex *Exec, fn *ssa.Function, args []Value) Value {
+			return IntV{ex.tf.Sub(timeExt(args[0]), timeExt(args[1]))}
+		},
+		"(time.Time).Before": func(ex *Exec, fn *ssa.Function, args []Value) Value {
+			return BoolV{ex.tf.Slt(timeExt(args[0]), timeExt(args[1]))}
+		},
+		"(time.Time).After": func(ex *Exec, fn *ssa.Function, args []Value) Value {
+			return BoolV{ex.tf.Slt(timeExt(args[1]), timeExt(args[0]))}
+		},
+		"(time.Time).Equal": func(ex *Exec, fn *ssa.Function, args []Value) Value {
+			return BoolV{ex.tf.Eq(timeExt(args[0]), timeExt(args[1]))}
+		},
+		"(time.Time).Date":  intrTimeDate,
+		"(time.Time).Clock": intrTimeClock,
+		"(time.Time).Zone":  intrTimeZone,
+		"(time.Time).Nanosecond": func(ex *Exec, fn *ssa.Function, args []Value) Value {
+			return IntV{ex.timeField("nanosecond", timeExt(args[0]), 0, 999999999)}
+		},
+		"(time.Time).Year": func(ex *Exec, fn *ssa.Function, args []Value) Value {
+			return IntV{ex.timeField("year", timeExt(args[0]), 0, 9999)}
+		},
+		"(time.Time).String": func(ex *Exec, fn *ssa.Function, args []Value) Value { return concStr("<time>") },
+		"time.Unix":          func(ex *Exec, fn *ssa.Function, args []Value) Value { return ex.mkTime(args[0].(IntV).T) },
 
 		"encoding/binary.Read":   intrBinaryRead,
 		"encoding/binary.Write":  intrBinaryWrite,
 		"encoding/binary.Decode": intrBinaryDecode,
 		"encoding/binary.Size":   intrBinarySize,
 
-		"bytes.Compare":                   intrBytesCompare,
-		"internal/bytealg.Compare":        intrBytesCompare,
-		"bytes.IndexByte":                 intrIndexByte,
-		"internal/bytealg.IndexByte":      intrIndexByte,
+		"bytes.Compare":                    intrBytesCompare,
+		"internal/bytealg.Compare":         intrBytesCompare,
+		"bytes.IndexByte":                  intrIndexByte,
+		"internal/bytealg.IndexByte":       intrIndexByte,
 		"internal/bytealg.IndexByteString": intrIndexByte,
-		"strings.IndexByte":               intrIndexByte,
+		"strings.IndexByte":                intrIndexByte,
 		"internal/bytealg.MakeNoZero": func(ex *Exec, fn *ssa.Function, args []Value) Value {
 			n := args[0].(IntV).T
 			return ex.makeSlice(types.Typ[types.Uint8], n, n)
@@ -326,11 +342,11 @@ func init() {
 		"golang.org/x/text/encoding/unicode.UTF16": func(ex *Exec, fn *ssa.Function, args []Value) Value {
 			return IfaceV{}
 		},
-		"runtime.GC":             zeroResult,
-		"runtime.Gosched":        zeroResult,
-		"runtime.KeepAlive":      zeroResult,
-		"runtime.SetFinalizer":   zeroResult,
-		"crypto/aes.NewCipher":   intrHarnessRequired("crypto/aes.NewCipher"),
+		"runtime.GC":                    zeroResult,
+		"runtime.Gosched":               zeroResult,
+		"runtime.KeepAlive":             zeroResult,
+		"runtime.SetFinalizer":          zeroResult,
+		"crypto/aes.NewCipher":          intrHarnessRequired("crypto/aes.NewCipher"),
 		"crypto/cipher.NewCBCDecrypter": intrHarnessRequired("crypto/cipher.NewCBCDecrypter"),
 		"crypto/cipher.NewCBCEncrypter": intrHarnessRequired("crypto/cipher.NewCBCEncrypter"),
 		"github.com/djherbis/times.Get": intrHarnessRequired("times.Get"),
